@@ -79,7 +79,7 @@ func matchStatement(cur Statement, node ipld.Node) (_ matchResult, leafMost Stat
 			if res == nil { // optional selector didn't match
 				return matchResultOptionalNoData, nil
 			}
-			return boolToRes(safeDeepEqual(s.value, res))
+			return boolToRes(equalNodes(s.value, res))
 		}
 	case KindGreaterThan:
 		if s, ok := cur.(equality); ok {
